@@ -276,6 +276,7 @@ int cif_create(cif_tp **cif) {
                         INIT_STMT(temp, reset_packet_num);
                         INIT_STMT(temp, check_item_loop);
                         INIT_STMT(temp, insert_value);
+                        INIT_STMT(temp, fill_packet);
                         INIT_STMT(temp, update_value);
                         INIT_STMT(temp, remove_packet);
 
